@@ -288,7 +288,7 @@ def run_rc_property(pid, cfg, tier, seed, t0):
                '--out', out, '--fp', fp, '--replay-out', rp]
         for o in base_opts:
             cmd += ['--opt', o]
-        cmd += ['--opt', 'shard=%d' % i, '--opt', 'nshards=%d' % shards, '--opt', 'zseed=%d' % seed, '--opt', 'tmpdir=%s' % rundir]
+        cmd += ['--opt', 'shard=%d' % i, '--opt', 'nshards=%d' % shards, '--opt', 'zseed=%d' % (seed * 1000 + i), '--opt', 'tmpdir=%s' % rundir]
         shard_cmds[i] = cmd
         with open(lg, 'w') as lf:
             r = subprocess.run(cmd, stdout=lf, stderr=subprocess.STDOUT, env=env)
